@@ -263,4 +263,3 @@ func workerEntry14(f func()) { f() }
 
 //go:noinline
 func workerEntry15(f func()) { f() }
-
